@@ -145,46 +145,131 @@ def check_qr(ctx, rng, a, sym, cfg, style, axes):
             break
 
 
+def _present(rng, h, nl):
+    """the operator h (legs: rows 0..nl-1, columns nl..2nl-1) seen through a random leg order, stored order and fusion of either group;
+    returns (view, rows, cols, style): eigh/eig(view, axes=(rows, cols)) is the decomposition of the same operator"""
+    import yastn
+    n2 = 2 * nl
+    q = list(range(n2))
+    style = []
+    if rng.random() < 0.7:
+        rng.shuffle(q)
+    x = h.transpose(tuple(q))
+    r = rng.random()
+    if r < 0.35:
+        x = x.consume_transpose(); style.append('stored')
+    elif r < 0.55:
+        q2 = list(range(n2)); rng.shuffle(q2)
+        x = x.consume_transpose().transpose(tuple(q2))
+        q = [q[i] for i in q2]; style.append('stored+lazy')
+    else:
+        style.append('lazy')
+    rows = [q.index(i) for i in range(nl)]
+    cols = [q.index(i) for i in range(nl, n2)]
+    if nl >= 2 and rng.random() < 0.5:
+        mode = rng.choice(['meta', 'meta', 'hard'])
+        which = rng.choice(['rows', 'cols', 'both'])
+        if which == 'rows':
+            x = x.fuse_legs(axes=(tuple(rows),) + tuple(cols), mode=mode); rows, cols = 0, tuple(range(1, nl + 1))
+        elif which == 'cols':
+            x = x.fuse_legs(axes=tuple(rows) + (tuple(cols),), mode=mode); rows, cols = tuple(range(nl)), nl
+        else:
+            x = x.fuse_legs(axes=(tuple(rows), tuple(cols)), mode=mode); rows, cols = 0, 1
+            if rng.random() < 0.5:
+                x = x.transpose((1, 0)); rows, cols = 1, 0
+        style.append('%s-fused-%s' % (mode, which))
+    else:
+        rows, cols = tuple(rows), tuple(cols)
+    return x, rows, cols, '+'.join(style)
+
+
+def _astuple(x):
+    return (x,) if isinstance(x, int) else tuple(x)
+
+
 def check_eigh(ctx, rng, sym, cfg):
     import yastn, tgen
     legs = [tgen.rleg(rng, cfg, sym, maxD=3) for _ in range(rng.randint(1, 2))]
+    if rng.random() < 0.5:      # mixed signatures inside a group
+        legs = [l if rng.random() < 0.5 else l.conj() for l in legs]
     m = yastn.rand(cfg, legs=legs + [l.conj() for l in legs], dtype=rng.choice(['float64', 'complex128']))
     nl = len(legs)
     h = m + m.conj().transpose(tuple(range(nl, 2 * nl)) + tuple(range(nl)))
-    sU = rng.choice([1, -1]); Uaxis = rng.randint(-(nl + 1), nl)
+    sU = rng.choice([1, -1])
     which = rng.choice(['LR', 'SR', 'LM', 'SM'])
-    desc = dict(kind='eigh', sym=sym, sU=sU, Uaxis=Uaxis, which=which)
+    x, rows, cols, style = _present(rng, h, nl)
+    nr = len(_astuple(rows))
+    Uaxis = rng.randint(-(nr + 1), nr)
+    desc = dict(kind='eigh', sym=sym, sU=sU, Uaxis=Uaxis, which=which, style=style, rows=rows, cols=cols, s=list(h.get_signature()))
     ctx.case(desc, nontrivial=h.size > 0)
-    S, U = yastn.eigh(h, axes=(tuple(range(nl)), tuple(range(nl, 2 * nl))), sU=sU, Uaxis=Uaxis, which=which)
-    ua = Uaxis % (nl + 1)
-    if U.get_legs(ua).s != sU:
-        ctx.violation('eigh: connecting leg signature', desc)
-    Um = U.moveaxis(ua, -1)
-    rec = yastn.tensordot(yastn.tensordot(Um, S, axes=(nl, 0)), Um.conj(), axes=(nl, nl))
-    if (rec - h).norm() > 1e-9 * max(1.0, float(h.norm())):
-        ctx.violation('eigh: U S U^dagger differs from the input by %.3g' % float((rec - h).norm()), desc)
-    UU = yastn.tensordot(Um.conj(), Um, axes=(tuple(range(nl)), tuple(range(nl))))
-    if UU.size and not np.allclose(UU.to_numpy(), np.eye(UU.get_shape(0)), atol=1e-9):
-        ctx.violation('eigh: U^dagger U is not the identity', desc)
-    for t in S.get_blocks_charge():
-        s = np.real(S[t])
-        key = {'LR': -s, 'SR': s, 'LM': -np.abs(s), 'SM': np.abs(s)}[which]
-        if np.any(np.diff(key) < -1e-10 * max(1.0, float(np.max(np.abs(s))) if len(s) else 1.0)):
-            ctx.violation('eigh(which=%s): eigenvalues of sector %r are not in the requested order: %r' % (which, t, s[:6]), desc)
-            break
+    ctx.count('eigh:' + style.split('+')[-1].split('-fused')[0])
+    try:
+        S, U = yastn.eigh(x, axes=(rows, cols), sU=sU, Uaxis=Uaxis, which=which)
+        ua = Uaxis % (nr + 1)
+        if U.get_legs(ua).s != sU:
+            ctx.violation('eigh: connecting leg signature', desc)
+        Um = U.moveaxis(ua, -1)
+        if Um.ndim != nr + 1 or any(Um.get_legs(k) != x.get_legs(r) for k, r in enumerate(_astuple(rows))):
+            ctx.violation('eigh (%s): the legs U inherits are not the legs of the input' % style, desc)
+            return
+        Um.is_consistent()
+        rec = yastn.tensordot(yastn.tensordot(Um, S, axes=(nr, 0)), Um.conj(), axes=(nr, nr))
+        ref = x.transpose(_astuple(rows) + _astuple(cols))
+        rec, ref = tgen.fully_unfused(rec), tgen.fully_unfused(ref)
+        if rec.ndim != ref.ndim or (rec - ref).norm() > 1e-9 * max(1.0, float(h.norm())):
+            ctx.violation('eigh (%s): U S U^dagger differs from the input' % style, desc)
+            return
+        UU = yastn.tensordot(Um.conj(), Um, axes=(tuple(range(nr)), tuple(range(nr))))
+        if UU.size and not np.allclose(UU.to_numpy(), np.eye(UU.get_shape(0)), atol=1e-9):
+            ctx.violation('eigh: U^dagger U is not the identity', desc)
+        for t in S.get_blocks_charge():
+            s_ = np.real(S[t])
+            key = {'LR': -s_, 'SR': s_, 'LM': -np.abs(s_), 'SM': np.abs(s_)}[which]
+            if np.any(np.diff(key) < -1e-10 * max(1.0, float(np.max(np.abs(s_))) if len(s_) else 1.0)):
+                ctx.violation('eigh(which=%s): eigenvalues of sector %r are not in the requested order: %r' % (which, t, s_[:6]), desc)
+                break
+    except yastn.YastnError as e:
+        if 'hard-fused-rows' in style or 'hard-fused-cols' in style:
+            ctx.count('eigh:rejected(one group hard-fused: bases of rows and columns differ)')      # legitimately refused
+        else:
+            ctx.violation('eigh (%s) on a Hermitian operator raised YastnError: %s' % (style, str(e)[:150]), desc)
+    except (AssertionError, ValueError, IndexError, KeyError) as e:
+        ctx.violation('eigh (%s) on a Hermitian operator raised %s: %s' % (style, type(e).__name__, str(e)[:150]), desc)
     # eig of a generic (non-hermitian) matrix: bi-orthonormal pairs and reconstruction
     g = yastn.rand(cfg, legs=legs + [l.conj() for l in legs], dtype='float64')
+    x, rows, cols, style = _present(rng, g, nl)
+    nr, nc = len(_astuple(rows)), len(_astuple(cols))
+    desc = dict(kind='eig', sym=sym, sU=sU, style=style, rows=rows, cols=cols, s=list(g.get_signature()))
+    ctx.case(desc, nontrivial=g.size > 0)
     try:
-        Ug, Sg, Vg = yastn.eig(g, axes=(tuple(range(nl)), tuple(range(nl, 2 * nl))), sU=sU)
-        rec = yastn.tensordot(yastn.tensordot(Ug, Sg, axes=(nl, 0)), Vg, axes=(nl, 0))
-        if (rec - g).norm() > 1e-7 * max(1.0, float(g.norm())):
-            ctx.violation('eig: U S V differs from the input by %.3g' % float((rec - g).norm()), dict(desc, kind='eig'))
-        VU = yastn.tensordot(Vg, Ug, axes=(tuple(range(1, nl + 1)), tuple(range(nl))))
-        if VU.size and not np.allclose(VU.to_numpy(), np.eye(VU.get_shape(0)), atol=1e-7):
-            ctx.violation('eig: V U is not the identity (pairs not bi-orthonormal)', dict(desc, kind='eig'))
-        ctx.count('eig')
+        Ug, Sg, Vg = yastn.eig(x, axes=(rows, cols), sU=sU)
     except yastn.YastnError:
-        ctx.count('eig:rejected')
+        ctx.count('eig:rejected(%s)' % style.split('+')[-1])
+        return
+    except ValueError as e:
+        ctx.violation('eig (%s) refused a diagonalisable operator: %s' % (style, str(e)[:120]), desc, family='eig-spurious-biorthonormalization-failure')
+        return
+    try:
+        if Ug.ndim != nr + 1 or Vg.ndim != nc + 1 or any(Ug.get_legs(k) != x.get_legs(r) for k, r in enumerate(_astuple(rows))) \
+                or any(Vg.get_legs(k + 1) != x.get_legs(c) for k, c in enumerate(_astuple(cols))):
+            ctx.violation('eig (%s): the legs U / V inherit are not the legs of the input' % style, desc)
+            return
+        Ug.is_consistent(); Vg.is_consistent()
+        if Ug.get_legs(nr).s != sU or Vg.get_legs(0).s != -sU:
+            ctx.violation('eig: connecting leg signature', desc)
+        rec = yastn.tensordot(yastn.tensordot(Ug, Sg, axes=(nr, 0)), Vg, axes=(nr, 0))
+        ref = x.transpose(_astuple(rows) + _astuple(cols))
+        rec, ref = tgen.fully_unfused(rec), tgen.fully_unfused(ref)
+        if rec.ndim != ref.ndim or (rec - ref).norm() > 1e-7 * max(1.0, float(g.norm())):
+            ctx.violation('eig (%s): U S V differs from the input' % style, desc)
+            return
+        if nr == nc:
+            VU = yastn.tensordot(Vg, Ug, axes=(tuple(range(1, nc + 1)), tuple(range(nr))))
+            if VU.size and not np.allclose(VU.to_numpy(), np.eye(VU.get_shape(0)), atol=1e-7):
+                ctx.violation('eig: V U is not the identity (pairs not bi-orthonormal)', desc)
+        ctx.count('eig:' + style.split('+')[-1].split('-fused')[0])
+    except (AssertionError, ValueError, IndexError, KeyError, yastn.YastnError) as e:
+        ctx.violation('eig (%s): factors are unusable: %s: %s' % (style, type(e).__name__, str(e)[:150]), desc)
 
 
 def run(ctx):
